@@ -1,27 +1,15 @@
 #!/bin/sh
 # Must-fail corpus: every mutant must make its property's check report a VIOLATION (exit 1);
-# runs on scratch worktrees outside /repo and /verif, removed immediately.
-# usage: selftest.sh [pattern]
+# negative controls (-neg-) must stay green. Runs on scratch worktrees outside /repo and /verif,
+# removed immediately. usage: selftest.sh [pattern]   (SELFTEST_JOBS mutants at a time, default 3)
 cd /verif
 pat=${1:-}
-fail=0; n=0
-for p in selftest/mutants/*${pat}*.patch; do
-  name=$(basename $p .patch); prop=$(cat selftest/mutants/$name.prop)
-  w=$(mktemp -d /tmp/selftest.XXXXXX)
-  git -C /repo worktree add -q --detach "$w" HEAD
-  (cd /repo && find . -name contracts_verif.go -print0 | tar --null -cf - -T -) | (cd "$w" && tar xf -)
-  if ! git -C "$w" apply "/verif/$p"; then echo "SELFTEST $name: patch does not apply"; fail=1; git -C /repo worktree remove --force "$w"; continue; fi
-  out=$(bin/bfvc check --property $prop --repo "$w" --evidence-dir "$w/.evidence" 2>&1); rc=$?
-  git -C /repo worktree remove --force "$w"
-  n=$((n+1))
-  case "$name" in *-neg-*)
-    if [ $rc -eq 0 ]; then echo "SELFTEST $name ($prop): negative control stayed green"; else echo "SELFTEST $name ($prop): FALSE ALARM on harmless change (rc=$rc)"; echo "$out" | tail -3; fail=1; fi
-    continue;; esac
-  if [ $rc -eq 1 ] && echo "$out" | grep -q "^VIOLATION property=$prop"; then
-    echo "SELFTEST $name ($prop): caught: $(echo "$out" | grep -m1 '^FAILED-OBLIGATION' | cut -c1-160)"
-  else
-    echo "SELFTEST $name ($prop): MISSED (rc=$rc)"; echo "$out" | tail -3; fail=1
-  fi
-done
+ls selftest/mutants/*${pat}*.patch | xargs -n1 basename | sed 's/\.patch$//' > /tmp/selftest.list.$$
+n=$(wc -l < /tmp/selftest.list.$$)
+xargs -P ${SELFTEST_JOBS:-3} -n1 tools/selftest_one.sh < /tmp/selftest.list.$$
+rc=$?
+rm -f /tmp/selftest.list.$$
+git -C /repo worktree prune
+fail=0; [ $rc -ne 0 ] && fail=1
 echo "selftest: $n mutants, fail=$fail"
 exit $fail
